@@ -884,7 +884,8 @@ impl<C: Cond> World<C> {
             .filter(|i| !Self::is_active_in(&v1, &GroupMember::Individual(*i)) && !Self::is_active_in(&v2, &GroupMember::Individual(*i)))
             .collect();
         let present: Vec<(GroupMember<Id>, u8)> = v1.iter().filter(|e| v2.contains(e)).map(|(m, l, _)| (*m, *l)).collect();
-        let Some(kind) = wchoose("conflict.kind", &[("same_level", 6), ("remove_vs_modify", 3), ("modify_vs_modify", 2), ("mutual_remove", 1), ("remove_vs_act", 1)]) else { return false };
+        let cross_w = if self.cfg.conditions && C::COUNT > 1 { 2 } else { 0 };
+        let Some(kind) = wchoose("conflict.kind", &[("same_level", 6), ("remove_vs_modify", 3), ("modify_vs_modify", 2), ("mutual_remove", 1), ("remove_vs_act", 1), ("manage_vs_lower_with_conditions", cross_w)]) else { return false };
         let (a1, a2): (GroupAction<Id, C>, GroupAction<Id, C>) = match kind {
             "same_level" => {
                 // conditions: (none, some) first — the suspicious comparison.
@@ -914,6 +915,28 @@ impl<C: Cond> World<C> {
                 } else {
                     return false;
                 }
+            }
+            "manage_vs_lower_with_conditions" => {
+                // One manager makes another replica's identity a manager under a narrow condition,
+                // the other gives it a lower level under a wider one: which of the two is "lower"?
+                let me = [self.reps[m1].actor, self.reps[m2].actor];
+                let cands: Vec<Id> = self.reps.iter().map(|r| r.actor).filter(|a| !me.contains(a)).collect();
+                if cands.is_empty() {
+                    return false;
+                }
+                let t = *ctx::pick("conflict.target", &cands);
+                let tm = GroupMember::Individual(t);
+                let low = *ctx::pick("conflict.level", &[1u8, 2, 0]);
+                let hi: Access<C> = Access { level: AccessLevel::Manage, conditions: Some(C::nth(0)) };
+                let lo: Access<C> = Access { level: level_of(low), conditions: Some(C::nth(C::COUNT - 1)) };
+                let a1 = if Self::is_active_in(&v1, &tm) { GroupAction::Promote { member: tm, access: hi } } else { GroupAction::Add { member: tm, access: hi } };
+                let a2 = if Self::is_active_in(&v2, &tm) {
+                    let cur = v2.iter().find(|e| e.0 == tm).map(|e| e.1).unwrap_or(0);
+                    if low >= cur { GroupAction::Promote { member: tm, access: lo } } else { GroupAction::Demote { member: tm, access: lo } }
+                } else {
+                    GroupAction::Add { member: tm, access: lo }
+                };
+                (a1, a2)
             }
             "remove_vs_modify" | "modify_vs_modify" => {
                 if present.is_empty() {
@@ -1641,8 +1664,15 @@ impl<C: Cond> World<C> {
     }
 
     fn site_root(&self, g: Id, m: &GroupMember<Id>, x: &Option<(u8, Option<C>)>, y: &Option<(u8, Option<C>)>) -> (&'static str, String) {
+        let downstream = "root_members differ downstream of an order-dependent manager status in the same group: some member was concurrently given manage and a lower level under conditions that Access::partial_cmp does not order consistently, so replicas disagree (state::merge tie-break) on whether that member's later operations are authorized";
         if x.is_none() || y.is_none() {
+            if self.authority_ambiguous(g) {
+                return ("reported-membership-differs", downstream.into());
+            }
             return ("reported-membership-differs", "root_members: member reported on one side only".into());
+        }
+        if !Self::has_inconsistent_pair(&self.assigned(Some(g), |t| t == m)) && self.authority_ambiguous(g) {
+            return ("reported-access-differs", downstream.into());
         }
         if Self::has_inconsistent_pair(&self.assigned(Some(g), |t| t == m)) {
             return (
@@ -1651,6 +1681,26 @@ impl<C: Cond> World<C> {
             );
         }
         ("reported-access-differs", "root_members: the accesses assigned to the member are consistently ordered by Access::partial_cmp (not the comparator)".into())
+    }
+
+    /// Some member of `g` was concurrently assigned manage and a lower level, not consistently
+    /// ordered by the crate's comparator: whether it is a manager is then order-dependent.
+    fn authority_ambiguous(&self, g: Id) -> bool {
+        let mut targets: BTreeSet<GroupMember<Id>> = BTreeSet::new();
+        for o in &self.ops {
+            if o.op.group_id == g {
+                if let Some(t) = action_target(&o.op.action) {
+                    targets.insert(t);
+                }
+                if let GroupAction::Create { initial_members } = &o.op.action {
+                    targets.extend(initial_members.iter().map(|(m, _)| *m));
+                }
+            }
+        }
+        targets.iter().any(|t| {
+            let acc = self.assigned(Some(g), |x| x == t);
+            acc.iter().any(|a| a.0 == 3) && acc.iter().any(|a| a.0 != 3) && Self::has_inconsistent_pair(&acc)
+        })
     }
 
     fn concurrency_note(&self, g: Id, m: &GroupMember<Id>) -> String {
@@ -1758,21 +1808,29 @@ impl<C: Cond> World<C> {
                 .spawn(move || {
                     let mut y = Crdt::<C>::init();
                     let mut done = vec![];
+                    let mut refused: Vec<(usize, &'static str)> = vec![];
                     for (k, op) in ops.iter().enumerate() {
                         if !dep_pos[k].iter().all(|d| d.map(|d| done.contains(&d)).unwrap_or(false)) {
                             continue;
                         }
-                        if let Ok(n) = Crdt::<C>::process(y.clone(), op) {
-                            y = n;
-                            done.push(k);
+                        match Crdt::<C>::process(y.clone(), op) {
+                            Ok(n) => {
+                                y = n;
+                                done.push(k);
+                            }
+                            Err(e) => refused.push((k, err_name(&e))),
                         }
                     }
                     let v = views_of(&y, &g2);
-                    (done, v, y)
+                    (done, refused, v, y)
                 })
                 .expect("spawn canonical");
             match h.join() {
-                Ok((done, v, y)) => {
+                Ok((done, refused, v, y)) => {
+                    for (k, e) in refused {
+                        evl!("canonical replica (creation order) refuses #{}: {e}", accepted[k]);
+                        self.ops[accepted[k]].rejected_by.insert(usize::MAX, e);
+                    }
                     let set: Vec<usize> = done.into_iter().map(|k| accepted[k]).collect();
                     by_set.entry(set).or_default().push(("canonical".into(), v, usize::MAX));
                     canonical = Some(y);
@@ -1817,7 +1875,7 @@ impl<C: Cond> World<C> {
                         violation(
                             "replicas-cannot-process-the-same-set",
                             &site,
-                            format!("{} accepted by {:?}, rejected by {:?}", self.show_op(s), o.accepted_by.iter().map(|r| self.reps[*r].actor).collect::<Vec<_>>(), o.rejected_by.iter().map(|(r, e)| (self.reps.get(*r).map(|x| x.actor).unwrap_or('?'), *e)).collect::<Vec<_>>()),
+                            format!("{} accepted by {:?}, rejected by {:?}", self.show_op(s), o.accepted_by.iter().map(|r| self.reps[*r].actor).collect::<Vec<_>>(), o.rejected_by.iter().map(|(r, e)| (self.reps.get(*r).map(|x| x.actor.to_string()).unwrap_or("canonical".into()), *e)).collect::<Vec<_>>()),
                         );
                         reported = true;
                         break;
